@@ -262,16 +262,17 @@ impl Bundle {
                 || lhs.value != value
                 || lhs.script_pubkey != script_pubkey
                 || lhs.sighash_type != sighash_type
+                // The sequence number and the required lock times are effecting data for
+                // which an absent value has a defined meaning, so "absent" conflicts with
+                // any value that means something else.
+                || lhs.sequence.unwrap_or(u32::MAX) != sequence.unwrap_or(u32::MAX)
+                || lhs.required_time_lock_time != required_time_lock_time
+                || lhs.required_height_lock_time != required_height_lock_time
             {
                 return None;
             }
 
             if !(merge_optional(&mut lhs.sequence, sequence)
-                && merge_optional(&mut lhs.required_time_lock_time, required_time_lock_time)
-                && merge_optional(
-                    &mut lhs.required_height_lock_time,
-                    required_height_lock_time,
-                )
                 && merge_optional(&mut lhs.script_sig, script_sig)
                 && merge_optional(&mut lhs.redeem_script, redeem_script)
                 && merge_map(&mut lhs.partial_signatures, partial_signatures)
